@@ -926,6 +926,12 @@ pub mod __verif {
         Key::new(op, crate::sys::Extra::detached(), driver_ty)
     }
 
+    /// What [`Proactor::cancel`] does to the key of a still pending operation before it hands it
+    /// to the driver: mark it as cancelled. Returns whether it was already cancelled.
+    pub fn mark_cancelled<T>(key: &Key<T>) -> bool {
+        key.set_cancelled()
+    }
+
     /// What `Driver::push` does with an accepted operation: keep one reference.
     pub fn kernel_ref<T>(key: &Key<T>) -> KernelRef {
         KernelRef(key.clone().erase())
